@@ -277,6 +277,16 @@ func workerBatch(t *testing.T, a workerArgs) int {
 					seenV[k2] = fv
 				}
 			}
+			if a.MaxMin < 0 {
+				// one process per run (the code under test keeps state between runs of one process): a second
+				// execution here would start from that state. The replay file is written from the tape as recorded;
+				// the driver confirms it in a fresh process.
+				rf.Tape = tapeToMap(rec)
+				name := fmt.Sprintf("%s/%s-%s-%d-%d%s.json", a.ReplayDir, a.Prop, sanitize(v.Clause), a.Seed, idx, map[bool]string{true: "-race", false: ""}[raceBuild])
+				writeJSON(name, rf)
+				fv.Replay = name
+				continue
+			}
 			// final confirming run with the full log
 			oc := runOne(t, p, ReplayTape(rec), RunOpt{Tier: a.Tier, Full: true})
 			// the schedule replays exactly; whether ThreadSanitizer still holds the earlier access in its
